@@ -5,6 +5,7 @@ import Driver.ReadCy
 import Dawgs.Model.CyEval
 import Dawgs.Model.SqlEval
 import Dawgs.Model.GraphGen
+import Dawgs.Model.C01
 /-! C01 semantic-search driver (suite `c01sem`, also used by C02).
 
 Input: `sem <gseed> <nrandom> <exN> <exE> <kindmap> <params> <cypher sexp> <sql sexp>` — the parsed Cypher model and the REAL emitted
@@ -13,22 +14,6 @@ statement; both are evaluated (Cy.eval on the graph, Sql.eval on its encoding) o
 `agree n=<k> …` | `differ …graph… cy=… sql=…` | `sql-runtime-error …` | `unmodelled <side> <what>`; counts of every outcome are appended. -/
 namespace Driver.C01
 open Driver Dawgs Dawgs.Sql
-
-mutual
-partial def valToR : Val → RVal
-  | .null => .null
-  | .bool b => .bool b
-  | .int i => .num ⟨i, 0⟩
-  | .num d => .num d.normalize
-  | .text s => .str s
-  | .jsonb j => Json.toR j
-  | .arr vs => .list (vs.map valToR)
-  | .row "nodecomposite" [.int i, .arr ks, .jsonb (.obj ps)] =>
-    .node i (ks.filterMap (fun k => match k with | .int x => some x.toNat | _ => none)) (Json.toRKvs ps)
-  | .row "edgecomposite" [.int i, .int s, .int e, .int k, .jsonb (.obj ps)] => .rel i s e k.toNat (Json.toRKvs ps)
-  | .row "pathcomposite" [.arr ns, .arr es] => .path (ns.map valToR) (es.map valToR)
-  | .row _ vs => if vs.all (fun v => match v with | .null => true | _ => false) then .null else .list (vs.map valToR)
-end
 
 partial def renderR : RVal → String
   | .null => "null"
@@ -287,7 +272,65 @@ def step (_ : Unit) (ts : List String) : Unit × String :=
     | _ => ((), "bad-op")
   | _ => ((), "bad-op")
 
+def dbgStep (_ : Unit) (ts : List String) : Unit × String :=
+  match ts with
+  | [line] =>
+    match Sexp.parseLine line with
+    | some [.atom "sem", _, _, _, _, _, _, _, sqlS] =>
+      match SqlSexp.stmt sqlS with
+      | .ok s => ((), (toString (repr s)).replace "\n" " ")
+      | .error e => ((), "unmodelled " ++ e)
+    | _ => ((), "bad-op")
+  | _ => ((), "bad-op")
+
+/-- tie 1 (model = code on the fragment): for a parsed query inside S1 the REAL statement must equal `tr q` (and carry no parameters).
+Then the theorem's prediction is run: on every generated graph that satisfies the hypothesis `GraphOK` (checked by `graphOKb`) the two
+evaluators must agree (or the SQL model stops with `unmodelled`); graphs outside the hypothesis are evaluated too and only counted. -/
+def tieStep (_ : Unit) (ts : List String) : Unit × String :=
+  match ts with
+  | [line] =>
+    match Sexp.parseLine line with
+    | some [.atom "skip"] => ((), "skip")
+    | some [.atom "sem", .atom gs, .atom nr, .atom en, .atom ee, kmS, pS, cyS, sqlS] =>
+      match kindMapOf kmS, ReadCy.query cyS, SqlSexp.stmt sqlS with
+      | some km, .ok q, .ok s =>
+        match C01.ofCy q with
+        | none => ((), "outside-fragment")
+        | some s1 =>
+          if !(s1.toCy == q) then ((), "tie-differs cypher-reading-of-fragment-term-is-not-the-parsed-query") else
+          if !s1.wf then ((), "outside-fragment return-alias-shadows-the-variable-under-order-by") else
+          match C01.tr km q with
+          | none => ((), "tie-differs model-translator-rejects-a-translated-query")
+          | some (st, ps) =>
+            if !((paramsOf pS).map (·.length) == some ps.length) then ((), "tie-differs real-translation-has-parameters") else
+            if !(st == s) then
+              ((), "tie-differs model=" ++ ((toString (repr st)).replace "\n" " ").replace " " "_" ++ " real=" ++ ((toString (repr s)).replace "\n" " ").replace " " "_")
+            else
+              match gs.toNat?, nr.toNat?, en.toNat?, ee.toNat? with
+              | some gseed, some nrandom, some exN, some exE =>
+                let graphs := graphsFor gseed nrandom exN exE
+                let ordered := !q.ret.orderBy.isEmpty
+                let inHyp := graphs.filter (C01.graphOKb km)
+                let outHyp := graphs.filter (fun g => !C01.graphOKb km g)
+                let outsIn := inHyp.map (compareOn km [] q s ordered [])
+                let outsOut := outHyp.map (compareOn km [] q s ordered [])
+                let isAgree := fun (o : Outcome) => match o with | .agree => true | _ => false
+                let isUsql := fun (o : Outcome) => match o with | .unmodelledSql _ => true | _ => false
+                let bad := outsIn.filter (fun o => !(isAgree o || isUsql o))
+                let counts := s!"graphs={graphs.length} hyp={inHyp.length} agree={(outsIn.filter isAgree).length} usql={(outsIn.filter isUsql).length} outside-hyp={outHyp.length} outside-hyp-agree={(outsOut.filter isAgree).length}"
+                if bad.isEmpty then ((), s!"tie-ok {counts}")
+                else ((), s!"tie-proof-mismatch {counts} {summarize bad}")
+              | _, _, _, _ => ((), "bad-op")
+      | _, .error e, _ => ((), "outside-fragment cypher:" ++ e.replace " " "_")
+      | _, _, .error e => ((), "outside-fragment sql:" ++ e.replace " " "_")
+      | _, _, _ => ((), "bad-op")
+    | _ => ((), "bad-op")
+  | _ => ((), "bad-op")
+
 def suite : Suite := { σ := Unit, init := (), step := step, raw := true }
+def dbgSuite : Suite := { σ := Unit, init := (), step := dbgStep, raw := true }
+def tieSuite : Suite := { σ := Unit, init := (), step := tieStep, raw := true }
 end Driver.C01
 
-def Driver.C01.suites : List (String × Driver.Suite) := [("c01sem", Driver.C01.suite)]
+def Driver.C01.suites : List (String × Driver.Suite) :=
+  [("c01sem", Driver.C01.suite), ("c01dbg", Driver.C01.dbgSuite), ("c01tie", Driver.C01.tieSuite)]
